@@ -76,3 +76,16 @@
 (assert (= (jsonmap (tojson smap.empty)) smap.empty))
 (assert (not (= (tojson smap.empty) json.null)))
 (assert (= (jsonmap json.null) smap.empty))
+
+; codec of message.Mesg{Type, Root, Leaf} (declared here so that the views can decode stored messages;
+; the engine adds the ground instances unjson.i(tojson(a0,a1,a2)) = ai for every message it encodes)
+(declare-fun tojson.message.Mesg (Str Str Str) Bytes)
+(declare-fun unjson.message.Mesg.0 (Bytes) Str)
+(declare-fun unjson.message.Mesg.1 (Bytes) Str)
+(declare-fun unjson.message.Mesg.2 (Bytes) Str)
+
+; @lit lit.notify "notify"
+(declare-const lit.notify Str)
+; NULL-able blob columns as client data: absent == empty
+(define-fun hdrs ((b OptBytes)) SMap (ite (is-bnone b) smap.empty (jsonmap (bval b))))
+(define-fun data ((b OptBytes)) Bytes (ite (is-bnone b) bytes.empty (bval b)))
